@@ -25,7 +25,7 @@ func init() {
 		ID:    "C13",
 		Title: "Math and global utility functions honour ES5 15.8 and 15.1",
 		Rule: "Math: every ES5 Math function x every tuple over the boundary set S (IEEE specials and neighbours) united with non-number values that exercise ToNumber " +
-			"(unary x S, pow/atan2 x S^2, max/min arity 0..3 over a 14-value subset, round/floor/ceil over the neighbours of k and k+-0.5); a case is non-trivial when a 15.8.2 bullet or an exact definition fixes its result " +
+			"(unary x S, pow/atan2 x S^2, every function x a lattice of kind extremes carried in every Number representation otto has - int32 from bitwise operators, uint32 from >>>, int/int64/uint16 from built-ins and literals, float64 from arithmetic, Go int8..uint64/float32/float64 from the embedder -  max/min arity 0..3 over a 14-value subset, round/floor/ceil over the neighbours of k and k+-0.5); a case is non-trivial when a 15.8.2 bullet or an exact definition fixes its result " +
 			"(otherwise only the tolerance laws apply). URI: every code-unit string up to the stated length over the 42-unit alphabet (the 30 units of the design plus 12 UTF-8 / %uXXXX / surrogate-range boundary units) for the encoders/escape (both string representations: UTF-16 payload from String.fromCharCode and Go-string payload) plus the source-literal route, " +
 			"every sequence of decode units (literals, %XX escapes, broken escapes) for the decoders and unescape; a case is non-trivial when the input contains at least one unit the function must transform or reject. " +
 			"Cases are distinct by key (function + argument labels / code units).",
@@ -34,6 +34,7 @@ func init() {
 			{Name: "binary", Run: runBinary},
 			{Name: "maxmin", Run: runMaxMin},
 			{Name: "rounding", Run: runRounding},
+			{Name: "kinds", Run: runKinds},
 			{Name: "predicates", Run: runPredicates, Solo: true},
 			{Name: "random", Run: runRandom, Solo: true},
 			{Name: "encode", Run: runEncode},
